@@ -70,15 +70,15 @@ PROPS["C07"] = dict(
 )
 PROPS["C09"] = dict(
     title="The namespace directive moves every namespaced resource and nothing else",
-    modules=["Kust.Props.C09", "Kust.Props.C09b"],
-    theorems=["Kust.C09.ns_total", "Kust.C09.ns_empty_noop", "Kust.C09.ns_outermost_wins", "Kust.C09.ns_collision_is_error",
+    modules=["Kust.Props.C09", "Kust.Props.C09b", "Kust.Props.C02c"],
+    theorems=["Kust.C02.namespace_kept", "Kust.C09.ns_total", "Kust.C09.ns_empty_noop", "Kust.C09.ns_outermost_wins", "Kust.C09.ns_collision_is_error",
               "Kust.C09.scope_table_sane", "Kust.C09.scope_table_expected",
               "Kust.C09.subject_named_default_moves", "Kust.C09.subject_not_default_untouched", "Kust.C09.service_account_subject_moves",
               "Kust.C09.other_kind_subject_untouched", "Kust.C09.no_subjects_mode_noop", "Kust.C09.roleBindingHack_frame",
               "Kust.C09.cluster_scoped_meta_untouched", "Kust.C09.cluster_scoped_untouched", "Kust.C09.meta_namespace_moves",
               "Kust.C09.run_is_meta_pass", "Kust.C09.dropMeta_no_meta_namespace", "Kust.C09.unset_only_keeps",
               "Kust.C09.setNamespaceField_moves"],
-    components=["res.layers", "res.append", "ns.filter"],
+    components=["res.layers", "res.append", "ns.filter", "res.smpatch"],
     oracle=True,
     n_corr={"quick": 3000, "thorough": 30000}, n_oracle={"quick": 500, "thorough": 5000},
     technique="Lean 4 proof (namespace step, outermost-wins induction over layers, collision re-check invariant, decide over regenerated scope table) + plugin correspondence + per-resource oracle on whole builds",
